@@ -18,7 +18,7 @@ import json
 import os
 import threading
 
-from lib import evidence, goenv, graph, tlc, tracecheck
+from lib import evidence, extension, goenv, graph, tlc, tracecheck
 from lib.common import MachineryError, classify_mismatches, log, save_replay
 
 PKG = "./p2p/host/resource-manager"
@@ -122,6 +122,7 @@ def run(ctx):
     if ctx.replay:
         return replay(ctx)
     T = tiers(ctx)
+    ext = extension.start_all(ctx, ["C03rate"])   # per-subnet connection caps + the rate side of admission
     tlc.stage(ctx)
     beh = ctx.sub("beh")
     jobs = []
@@ -245,6 +246,7 @@ def run(ctx):
         traces_accepted=accepted, traces_rejected=len(rejected), trace_states=tstates,
         trace_events=(resc.get("extra") or {}).get("trace_events", 0), divergences_L2=div, notes=ctx.notes[:10],
         rule=res.get("rule"))
+    extension.finish_all(ctx, ext, cov)
     return {"level": "model_checking", "coverage": cov, "assumptions": [
         "bounded instances (<=3 connections/streams/spans, 2 peers, 1 protocol, 1 service, limits 0..4 and 'unlimited'); "
         "larger tables and values only through seeded random histories judged by the harness ledger",
@@ -318,6 +320,7 @@ MANIFEST = {
             "disagreement alone is an L2 divergence. Bounded instances; GC atomic; named-scope locks not modelled; "
             "rate limiter off. The two open known findings are re-derived on every run; the two repaired ones "
             "(GC forgetting reserved memory, unlimited-scope overflow) are regression instances (known_findings.d/C03.json).",
-    "engines": [{"name": "C03_Rcmgr", "path": "spec/C03_Rcmgr.tla", "serves_properties": ["C03", "C04"],
+    "engines": [{"name": "C03rate_Limiter", "path": "spec/C03rate_Limiter.tla", "serves_properties": ["C03"], "kind_free_text": "extension engine (checks/C03rate.py, run as a part of C03): TLA+ specs of the per-subnet connection limiter composed with the x/rate token-bucket limiter as rcmgr's openConnection does (C03rate_Conn, C03rate_Limiter, C03rate_Conc); TLC exhaustive; every transition replayed on the real rate.Limiter, connLimiter and resource manager in virtual time with an independent integer ledger as oracle"},
+                {"name": "C03_Rcmgr", "path": "spec/C03_Rcmgr.tla", "serves_properties": ["C03", "C04"],
                  "kind_free_text": "TLA+ spec + TLC exhaustive (sequential + concurrent) + full-transition replay + trace validation (C03_Trace.tla) + function grid (C03_MemGrid.tla)"}],
 }
